@@ -102,6 +102,23 @@ PROPS = {
         'not_yet_proved': ['C15 counting theorems over build_report'],
         'assumptions': [ASSUME_UNIVERSE, 'sentry-go event defaults not modelled'],
     },
+    'C05': {
+        'streams': [AUX('C05', '{build}/verifharness gen -prop C05 -seed {seed} -n {n} -out {out} -thorough={thorough}', 60, 600, model=True)],
+        'explanation': 'theorems: every decoded node is the opaque stand-in carrying the message verbatim or a node of the type named on the wire over the decoded cause(s); decoders that need a payload fall back to the opaque type when it is absent or foreign. Sweep: every registered decoder key (from the live registries) x payload faults x detail faults x message types x 4 positions, and mutated wire bytes; DecodeError and every observer run under recover(); the decoded error compared with the model',
+        'assumptions': [ASSUME_UNIVERSE, 'a payload EncodedError with no field set is outside the model payload type: those cases are decided by the implementation-side run only'],
+    },
+    'C16': {
+        'streams': [AUX('C16', '{build}/verifharness depth {out} {build}/depth_entries.json', 1, 1)],
+        'explanation': 'theorems: the forwarding table regenerated from the source passes the static offset check, and the check is sound for the frame-counting semantics for every depth and stack. Run: every named function x depth 0..3 through non-inlinable call chains across packages, first frame / one-line source / package domain compared with the expected caller',
+        'assumptions': ['runtime.Callers / runtime.Caller report logical frames as documented, also under inlining (exercised, not proved)'],
+        'rule': 'one case per (exported stack-capturing or domain function, call shape, depth); all are non-trivial',
+    },
+    'C18': {
+        'streams': [AUX('C18', 'cd {verif}/harness && go build -race -tags verif -o {build}/verifharness_race ./cmd/verifharness && cd {verif} && GORACE="log_path={out}/race halt_on_error=0" {build}/verifharness_race race -seed {seed} -n {n} -out {out}', 40, 600, cgo=True)],
+        'explanation': 'theorems: the write-effect table regenerated from the source (go/ssa, every function reachable from the observer API) lists no write to shared state; threads that do not write shared state are schedule-independent (any interleaving, any number of threads). Run: 16 goroutines x all observers on shared local / decoded / opaque errors of every kind under the race detector, results compared with the solo run',
+        'assumptions': ['Go memory model for read-only sharing', 'soundness of the SSA write-effect extraction, including its caller-owned whitelist (translators/effects/main.go)', 'fmt, redact, logtags, sentry-go are exercised by the race detector only'],
+        'rule': 'one case per goroutine run of the full observer set on a shared error; distinct = number of distinct trees',
+    },
     'C19': {
         'streams': [S('C19', 600, 20000)],
         'explanation': 'C19_hints/C19_details/C19_flatten/C19_links/C19_keys: the Go accumulator code (transcribed in Model/Access.v) equals the declarative spec of Spec/Aggregate.v for every error tree; correspondence compares GetAllHints/GetAllDetails/Flatten*/GetAllIssueLinks/GetTelemetryKeys/GetContextTags of the real library with the model on generated chains with repeated, empty and standard hints; Go relation: independent re-implementation',
